@@ -24,10 +24,10 @@ class Lane(LaneBase):
     TRUSTED = ['the insertion order of the variable index is read from the implementation and handed to the model',
                'adjacency_matrices / to_numpy_by_lag are checked by the oracle only in this lane (their model belongs '
                'to the matrix helper)']
-    PARTIAL = ['minimal_idem: proved for node set, typed edges, class, graph metadata (minimal_idem_shape); equality of '
-               'states incl. attributes is kept as `minimal_idem_statement`',
-               'is_minimal_graph(minimal graph) = true awaits the graphEq characterisation (tsGraphEqShallow swap)',
-               'adjMatrices_eq belongs to the matrix lane (the C14 lane checks it on the implementation only)']
+    PARTIAL = ['adjMatrices_eq belongs to the matrix lane (the C14 lane checks adjacency_matrices / to_numpy_by_lag on '
+               'the implementation only)',
+               'is_minimal_graph is stated through the temporary tsGraphEqShallow of CG/Model/TS.lean (to be swapped '
+               'for graphEq false)']
 
     def cases(self, tier, rng):
         n = 8000 if tier == "quick" else 80000
